@@ -20,6 +20,7 @@ const (
 	c02A1 = "ed25519-0"
 	c02A2 = "ecdsa-p256-0"
 	c02A3 = "rsa2048-0"
+	c02A4 = "ecdsa-p384-0" // an ECDSA key that is not P-256 (its default scheme name still says nistp256)
 	c02U  = "ed25519-3"    // in no layout
 	c02D  = "ecdsa-p256-1" // authorised for the other step only (defined in the layout)
 	c02L  = "ed25519-2"    // listed for the step but not defined in the layout
@@ -94,6 +95,16 @@ func init() {
 				truth: func(c c02Case) []string { return []string{"key:" + a} }})
 		}
 	}
+	for _, wr := range []string{"legacy", "dsse"} {
+		wr := wr
+		c02Register(c02Kind{name: "honest-key:" + c02A4 + ":" + wr, honest: true,
+			file:  func(b *c02Builder) hx.WMetaFile { return c02File("honest-"+c02A4+wr, c02A4, wr, hx.WSig{Key: c02A4}) },
+			truth: func(c c02Case) []string { return []string{"key:" + c02A4} }})
+	}
+	// a DSSE link named for an authorised key whose only signature entry cannot even be decoded
+	c02Register(c02Kind{name: "dsse-undecodable-sig:" + c02A2,
+		file:  func(b *c02Builder) hx.WMetaFile { return c02File("undecodable", c02A2, "dsse", hx.WSig{Key: c02A2, Forge: "garbage"}) },
+		truth: func(c c02Case) []string { return nil }})
 	for _, cn := range []string{"leaf1", "leaf2", "leaf-direct"} {
 		cn := cn
 		c02Register(c02Kind{name: "honest-cert:" + cn, honest: true,
@@ -257,7 +268,7 @@ func c02World(c c02Case) (hx.World, map[string][]string, error) {
 		return hx.World{}, nil, err
 	}
 	lay := hx.MLayout{Type: "layout", Expires: hx.FarFuture, Readme: "", Keys: hx.MKeys{}, Inspect: []hx.MInspection{}}
-	for _, k := range []string{c02A1, c02A2, c02A3, c02D} {
+	for _, k := range []string{c02A1, c02A2, c02A3, c02A4, c02D} {
 		pk := hx.PoolKey(k)
 		lay.Keys[pk.KeyID] = hx.MKeyFromLib(pk.Pub())
 	}
@@ -285,7 +296,7 @@ func c02World(c c02Case) (hx.World, map[string][]string, error) {
 		constraint.Roots = ids
 	}
 	s0 := hx.MStep{Type: "step", Name: c02Step, ExpMat: [][]string{{"ALLOW", "*"}}, ExpProd: [][]string{{"ALLOW", "*"}},
-		PubKeys:     []string{hx.PoolKey(c02A1).KeyID, hx.PoolKey(c02A2).KeyID, hx.PoolKey(c02A3).KeyID, hx.PoolKey(c02L).KeyID},
+		PubKeys:     []string{hx.PoolKey(c02A1).KeyID, hx.PoolKey(c02A2).KeyID, hx.PoolKey(c02A3).KeyID, hx.PoolKey(c02A4).KeyID, hx.PoolKey(c02L).KeyID},
 		Constraints: []hx.MConstraint{constraint}, ExpCommand: []string{"build"}, Threshold: c.Threshold}
 	lay.Steps = []hx.MStep{s0}
 	w := hx.World{Entry: "cwd", PKI: pki, Product: []hx.WFile{{Path: "out.txt", Content: "payload"}}}
@@ -552,7 +563,7 @@ func c02Exhaustive(t *testing.T) {
 	// a reduced alphabet keeps the enumeration affordable; every kind family is represented
 	alpha := []string{
 		"honest-key:" + c02A1 + ":legacy", "honest-key:" + c02A2 + ":dsse", "honest-key:" + c02A3 + ":legacy",
-		"honest-cert:leaf1", "honest-cert:leaf2", "honest-cert:leaf-direct",
+		"honest-cert:leaf1", "honest-cert:leaf2", "honest-cert:leaf-direct", "honest-key:" + c02A4 + ":legacy", "dsse-undecodable-sig:" + c02A2,
 		"tampered:" + c02A1, "unsigned", "unauthorised-key", "other-step-key", "listed-not-defined",
 		"bad-cert:leaf-expired", "bad-cert:leaf-foreign", "bad-cert:leaf-mismatch", "bad-cert:leaf-twin",
 		"dup-key:" + c02A1, "dup-cert:leaf1", "dup-upper:" + c02A2, "multisig:" + c02A2 + "+" + c02A1, "forged-id:" + c02A3, "junk:garbage",
